@@ -24,7 +24,25 @@ RULE = (
     "empty, subscripted at every position class (before/at/after the unbounded member, out of range, both signs) and "
     "swept over EVERY constant index from -(n+1) to n, star-unpacked, iterated and matched; narrowing conditions STORED "
     "in a variable and tested later (`ok = c ... if ok:` / `if not ok:`) with the tested variable left alone, rebound on "
-    "some paths only (if-body, else-body, for-body, while-body, try-body, except-body) or on all paths. "
+    "some paths only (if-body, else-body, for-body, while-body, try-body, except-body) or on all paths; "
+    "try statements with 0-2 handlers, optional else and a finally in which the handlers and the else block ASSIGN a "
+    "variable and are then left by bare raise / raise of another exception / raise..from / a raising or sometimes-raising "
+    "call / return / break / continue (unconditionally or under an input-dependent condition), or assign it again, or "
+    "fall through; the variable is read in the finally body (directly, through a copy, around a nested "
+    "try/except/else/finally inside the finally) and after the statement, the whole optionally inside an outer "
+    "try/except(/finally) or its own for loop so that the reads after it run on the exceptional paths too; "
+    "variables whose inferred value is a UNION OF LITERALS (Literal[...] parameters over ints, floats, strs, None; locals "
+    "assigned different literals by a conditional expression / if-else / if / elif chain / for body / try body); comparison "
+    "CHAINS with 2-4 operators (<, <=, >, >=, ==, !=, is, is not, trailing in / not in) whose operands mix the variable "
+    "(at every position, also twice), literals (members of the union, thresholds next to a member) and expressions known "
+    "only by type (other parameters, zero()+c, len(..), str(..), 'x'.lower()), None entering through identity links; each "
+    "chain is placed as an if/else test, elif test, early-return guard (plain and negated), under not / not not, as left "
+    "operand of and / or with the variable read on the right, inside and / or tests next to another condition, as "
+    "conditional-expression test, while / while-not test with the variable rebound in the body and read in the loop's "
+    "else, assert / assert not, stored in a variable and tested later, bound by a walrus, as match-case guard and as "
+    "comprehension filter, and is also one of the forms every generated condition can take; the variable is read where "
+    "the chain is known true and where it is known false; while loops that run as long as a variable initialised with "
+    "a literal (tuple, list, str, int) is truthy and shrink it in the body. "
     "Non-trivial = at least one evaluated node with an informative inferred type (not "
     "Any/object/opaque) received a decided membership verdict; distinct by (function source, repr of arguments)."
 )
@@ -35,9 +53,11 @@ ASSUMPTIONS = [
 ]
 FLOORS = {
     "quick": {"distinct_nontrivial": 10000, "functions_called": 800, "rec_evaluations": 200000, "decided_memberships": 200000, "witnesses_minimised": 1,
-              "star_tuple_const_subscript_evaluations": 10000, "stored_condition_branch_evaluations": 7500},
+              "star_tuple_const_subscript_evaluations": 10000, "stored_condition_branch_evaluations": 7500,
+              "chained_comparison_governed_reads": 6000, "finally_reads_of_handler_or_else_assigned_variable": 3000},
     "thorough": {"distinct_nontrivial": 40000, "functions_called": 8000, "rec_evaluations": 1000000,
-                 "star_tuple_const_subscript_evaluations": 80000, "stored_condition_branch_evaluations": 60000},
+                 "star_tuple_const_subscript_evaluations": 80000, "stored_condition_branch_evaluations": 60000,
+                 "chained_comparison_governed_reads": 100000, "finally_reads_of_handler_or_else_assigned_variable": 50000},
 }
 EXCUSING_CODES = {
     "incompatible_argument", "incompatible_call", "incompatible_assignment", "incompatible_return_value", "unsupported_operation",
@@ -166,7 +186,14 @@ def check_module(ctx, source: str, funcs, only_func=None, only_args=None, kwargs
                     if fsrc is None:
                         fsrc = function_source(source, name)
                     ctx.nontrivial((fsrc, [a.src for a in args]))
-                for k, value, t, v in state["bad"][:3]:
+                # up to 3 DIFFERENT nodes per call (a node evaluated again in a loop counts once, so that the violations
+                # inside a loop do not hide the ones after it)
+                seen_nodes, bad = set(), []
+                for b in state["bad"]:
+                    if b[0] not in seen_nodes:
+                        seen_nodes.add(b[0])
+                        bad.append(b)
+                for k, value, t, v in bad[:3]:
                     node = ins.nodes[k]
                     varname = node.id if isinstance(node, ast.Name) else None
                     where = instrument.context_of(node, parents, varname)
@@ -226,6 +253,40 @@ def workload_reach(ins) -> dict:
                             k = by_key.get(instrument.node_key(sub))
                             if k is not None:
                                 out.setdefault(k, "stored_condition_branch_evaluations")
+    # reads, in a finally body, of a variable that an except handler or the else block of the same try assigns
+    for node in ast.walk(ins.tree):
+        if isinstance(node, ast.Try) and node.finalbody and (node.handlers or node.orelse):
+            assigned = {sub.id for blk in [h.body for h in node.handlers] + [node.orelse] for st in blk for sub in ast.walk(st)
+                        if isinstance(sub, ast.Name) and isinstance(sub.ctx, ast.Store)}
+            for st in node.finalbody:
+                for sub in ast.walk(st):
+                    if isinstance(sub, ast.Name) and isinstance(sub.ctx, ast.Load) and sub.id in assigned:
+                        k = by_key.get(instrument.node_key(sub))
+                        if k is not None:
+                            out.setdefault(k, "finally_reads_of_handler_or_else_assigned_variable")
+    # reads of an operand of a comparison CHAIN (two or more operators), in the statement the chain governs or in the
+    # statements that follow it in the same block (after an early return, after the loop, after an assert)
+    parents = instrument.parent_map(ins.tree)
+    for node in ast.walk(ins.tree):
+        if isinstance(node, ast.Compare) and len(node.ops) > 1:
+            names = {o.id for o in [node.left, *node.comparators] if isinstance(o, ast.Name)}
+            if not names:
+                continue
+            inside = {id(n) for n in ast.walk(node)}
+            cur = node
+            while cur in parents and not isinstance(cur, ast.stmt):
+                cur = parents[cur][0]
+            if cur not in parents:
+                continue
+            owner, field = parents[cur]
+            block = getattr(owner, field, None)
+            region = block[block.index(cur):] if isinstance(block, list) and cur in block else [cur]
+            for st in region:
+                for sub in ast.walk(st):
+                    if isinstance(sub, ast.Name) and isinstance(sub.ctx, ast.Load) and sub.id in names and id(sub) not in inside:
+                        k = by_key.get(instrument.node_key(sub))
+                        if k is not None:
+                            out.setdefault(k, "chained_comparison_governed_reads")
     return out
 
 
@@ -511,11 +572,21 @@ def mechanism_key(minkey: str, minsrc: str, fname: str, params=None, args=None, 
         return "equality-narrowing|argument-equals-literal-of-other-type"
     if _stored_condition_readded(minsrc, fname, node_src, lineno):
         return STORED_CONDITION_KEY
+    if "Refine" in mismatch and _unmirrored_bound(minsrc, fname, node_src, lineno):
+        return UNMIRRORED_BOUND_KEY
+    if params is not None and args is not None and _after_loop_believed_endless(minsrc, fname, entry or fname, params, args, minkey, lineno):
+        return ENDLESS_LOOP_KEY
     if mismatch.endswith("reached Never") and params is not None and args is not None and _instance_of_two_unrelated_classes(minsrc, fname, params, args):
         return "intersection|instance-of-two-unrelated-classes-is-narrowed-away"
     if node_src and lineno and _composite_read_after_branch_that_assigned_it(minsrc, fname, node_src, lineno):
         return "composite|x[const]-after-a-branch-that-assigned-it-forgets-the-path-that-did-not"
     if node in ("Name", "Subscript") and node_src and _item_assigned(minsrc, fname, node_src):
+        return "mutation|container-variable-keeps-its-value-from-before-an-item-assignment"
+    if node in ("IfExp", "BoolOp", "NamedExpr") and node_src and any(_item_assigned(minsrc, fname, ast.unparse(o)) for o in _result_operands(ast.parse(node_src, mode="eval").body)):
+        # the same stale container, read as the value of a conditional expression / and-or / walrus
+        return "mutation|container-variable-keeps-its-value-from-before-an-item-assignment"
+    if node_src and params is not None and args is not None and _flows_from_item_assigned_container(minsrc, fname, entry or fname, params, args, minkey, node_src, lineno):
+        # the stale container again, read through a copy / a display that holds it / a call it is passed to
         return "mutation|container-variable-keeps-its-value-from-before-an-item-assignment"
     if node_src and _stale_composite_in_loop(minsrc, fname, node_src):
         return "loop|value-of-x[const]-kept-from-first-pass-although-x-is-reassigned-in-the-loop"
@@ -567,6 +638,113 @@ def _instance_of_two_unrelated_classes(minsrc: str, fname: str, params, args) ->
                     continue
                 if isinstance(o, d) and isinstance(o, t):
                     return True
+    return False
+
+
+ENDLESS_LOOP_KEY = "loop|code-after-a-while-without-break-whose-test-is-a-variable-holding-a-truthy-literal-is-taken-as-unreachable"
+
+
+def _after_loop_believed_endless(minsrc: str, fname: str, entry: str, params, args, minkey: str, lineno) -> bool:
+    """Observes pyanalyze on the minimal program (a recording wrapper around NameCheckVisitor._set_name_in_scope). True
+    when the violating node lies AFTER a `while` loop that has no break and whose test is not a constant, and pyanalyze
+    marks the code after THAT loop as unreachable (it sets the LEAVES_SCOPE marker with the While node): it saw a truthy
+    literal in the test on its first visit and took the loop for endless although the body changes the tested
+    variable, so that path is dropped at the next merge - and the violation disappears when the checker can no longer
+    take that test for always true."""
+    if not lineno:
+        return False
+    try:
+        from pyanalyze.name_check_visitor import NameCheckVisitor
+        from pyanalyze.stacked_scopes import LEAVES_SCOPE
+
+        tree = ast.parse(minsrc)
+        fn = next(n for n in tree.body if isinstance(n, ast.FunctionDef) and n.name == fname)
+        loops = [n for n in ast.walk(fn) if isinstance(n, ast.While) and not isinstance(n.test, ast.Constant)
+                 and (n.end_lineno or n.lineno) < lineno]
+        loops = [n for n in loops if not any(isinstance(sub, ast.Break) for st in n.body for sub in ast.walk(st))]
+        if not loops:
+            return False
+        marked = []
+        orig = NameCheckVisitor._set_name_in_scope
+
+        def spy(self, varname, node, *a, **k):
+            if varname == LEAVES_SCOPE and isinstance(node, ast.While):
+                marked.append(node.lineno)
+            return orig(self, varname, node, *a, **k)
+
+        NameCheckVisitor._set_name_in_scope = spy
+        try:
+            res = harness.run(minsrc, tree=tree, annotate=True, kwargs=harness.constructor_kwargs("tests", C01_OVERRIDES, fresh=True))
+        finally:
+            NameCheckVisitor._set_name_in_scope = orig
+        hit = [n for n in loops if n.lineno in marked]
+        if res.exception is not None or not hit:
+            return False
+        # ... and that is what the violation needs: with the test `T` of those loops rewritten as `opt(T)` (same truth
+        # value at run time, but not a value the checker can take as always true) the violation is gone
+        for n in hit:
+            n.test = ast.Call(func=ast.Name(id="opt", ctx=ast.Load()), args=[n.test], keywords=[])
+        ast.fix_missing_locations(tree)
+        cand = ast.unparse(tree)
+        sig = _signature_of(minkey)
+        return all(still_violates(cand, entry, params, args, sig) is None for _ in range(2))
+    except Exception:  # noqa: BLE001
+        return False
+
+
+UNMIRRORED_BOUND_KEY = "comparison-bound|literal-on-the-left-of-an-ordering-comparison-attaches-the-bound-of-the-unmirrored-operator"
+
+
+def _unmirrored_bound(minsrc: str, fname: str, node_src, lineno) -> bool:
+    """Observes pyanalyze on the minimal program. True when the value inferred for the violating node carries a bound
+    Lt/Le/Gt/Ge(c) and the program has an ordering link `c OP <that expression>` with the literal on the LEFT whose
+    operator, read left to right, is the bound's (`2 < x` gives x the bound Lt(2) although it says x > 2)."""
+    if not node_src or not lineno:
+        return False
+    try:
+        from pyanalyze.extensions import CustomCheck  # noqa: F401
+        from pyanalyze.value import AnnotatedValue, CustomCheckExtension, MultiValuedValue
+
+        tree = ast.parse(minsrc)
+        res = harness.run(minsrc, tree=tree, annotate=True, kwargs=harness.constructor_kwargs("tests", C01_OVERRIDES, fresh=True))
+        if res.exception is not None:
+            return False
+        fn = next(n for n in tree.body if isinstance(n, ast.FunctionDef) and n.name == fname)
+        bounds = set()
+
+        def collect(v):
+            if isinstance(v, MultiValuedValue):
+                for m in v.vals:
+                    collect(m)
+            elif isinstance(v, AnnotatedValue):
+                for md in v.metadata:
+                    if isinstance(md, CustomCheckExtension) and hasattr(md.custom_check, "value"):
+                        bounds.add((type(md.custom_check).__name__, repr(md.custom_check.value)))
+                collect(v.value)
+
+        for node in ast.walk(fn):
+            if isinstance(node, ast.expr) and getattr(node, "lineno", None) == lineno and ast.unparse(node) == node_src:
+                collect(getattr(node, "inferred_value", None))
+        if not bounds:
+            return False
+        read = {n.id for n in ast.walk(ast.parse(node_src, mode="eval")) if isinstance(n, ast.Name)}
+        as_written = {ast.Lt: "Lt", ast.LtE: "Le", ast.Gt: "Gt", ast.GtE: "Ge"}
+        ns = dict(ty.eval_ns())
+        for node in ast.walk(fn):
+            if not isinstance(node, ast.Compare):
+                continue
+            operands = [node.left, *node.comparators]
+            for op, a, b in zip(node.ops, operands, operands[1:]):
+                if type(op) not in as_written or not (ast.unparse(b) == node_src or isinstance(b, ast.Name) and b.id in read):
+                    continue
+                try:
+                    lit = eval(compile(ast.Expression(a), "<lit>", "eval"), {"__builtins__": {}, **{k: v for k, v in ns.items() if k in ("Color", "Num")}})
+                except Exception:  # noqa: BLE001
+                    continue
+                if (as_written[type(op)], repr(lit)) in bounds:
+                    return True
+    except Exception:  # noqa: BLE001
+        pass
     return False
 
 
@@ -646,13 +824,27 @@ def _composite_root(expr):
 def _composite_read_after_branch_that_assigned_it(minsrc: str, fname: str, node_src: str, lineno: int) -> bool:
     """The violating node reads a composite `x[const]...` AFTER a compound statement in which x (or a part of x) is
     assigned on some path only: at the merge pyanalyze keeps the composite's value from the assigning path and drops
-    the path on which it was left alone."""
+    the path on which it was left alone.
+    When the violating node is a bare NAME, the value it holds may have come from such a read: the right-hand sides of
+    the assignments to that name that precede the node (`x = x[-2]`, `v = c[0][0]`, `(w := c['a'])`) are examined the
+    same way, each at its own line."""
     expr = ast.parse(node_src, mode="eval").body
+    tree = ast.parse(minsrc)
+    fn = next(n for n in tree.body if isinstance(n, ast.FunctionDef) and n.name == fname)
+    if isinstance(expr, ast.Name):
+        for st in ast.walk(fn):
+            value = None
+            if isinstance(st, ast.Assign) and any(isinstance(t, ast.Name) and t.id == expr.id for t in st.targets):
+                value = st.value
+            elif isinstance(st, (ast.AnnAssign, ast.NamedExpr)) and isinstance(st.target, ast.Name) and st.target.id == expr.id:
+                value = st.value
+            if value is not None and st.lineno <= lineno and not isinstance(value, ast.Name) \
+                    and _composite_read_after_branch_that_assigned_it(minsrc, fname, ast.unparse(value), st.lineno):
+                return True
+        return False
     roots = {r for r in (_composite_root(n) for n in ast.walk(expr)) if r}
     if not roots:
         return False
-    tree = ast.parse(minsrc)
-    fn = next(n for n in tree.body if isinstance(n, ast.FunctionDef) and n.name == fname)
     for st in ast.walk(fn):
         if not isinstance(st, (ast.If, ast.For, ast.While, ast.Try, ast.Match, ast.With)):
             continue
@@ -666,6 +858,72 @@ def _composite_read_after_branch_that_assigned_it(minsrc: str, fname: str, node_
                 if isinstance(base, ast.Name) and base.id in roots:
                     return True
     return False
+
+
+def _flows_from_item_assigned_container(minsrc: str, fname: str, entry: str, params, args, minkey: str, node_src: str, lineno) -> bool:
+    """The violating expression reads - directly or through up to three assignments (`c2 = {'b': c1}`, `t = c1`,
+    `w = opt(c1)`) - a variable c that the minimal program item-assigns (`c[0] = ...`), and the violation disappears when
+    those item assignments are deleted (differential observation): the value pyanalyze keeps for c from before the item
+    assignment is what makes the inferred value of the expression too narrow."""
+    try:
+        tree = ast.parse(minsrc)
+        fn = next(n for n in tree.body if isinstance(n, ast.FunctionDef) and n.name == fname)
+        bases = set()
+        for n in ast.walk(fn):
+            if isinstance(n, ast.Subscript) and isinstance(n.ctx, ast.Store):
+                b = n.value
+                while isinstance(b, (ast.Subscript, ast.Attribute)):
+                    b = b.value
+                if isinstance(b, ast.Name):
+                    bases.add(b.id)
+        if not bases:
+            return False
+        reach = {n.id for n in ast.walk(ast.parse(node_src, mode="eval")) if isinstance(n, ast.Name)}
+        for _ in range(3):
+            more = set()
+            for st in ast.walk(fn):
+                tgt = None
+                if isinstance(st, ast.Assign):
+                    tgt = {t.id for t in st.targets if isinstance(t, ast.Name)}
+                elif isinstance(st, (ast.AnnAssign, ast.NamedExpr)) and isinstance(st.target, ast.Name):
+                    tgt = {st.target.id}
+                if tgt and tgt & reach and st.value is not None and (not lineno or st.lineno <= lineno):
+                    more |= {n.id for n in ast.walk(st.value) if isinstance(n, ast.Name)}
+            if more <= reach:
+                break
+            reach |= more
+        hit = bases & reach
+        if not hit:
+            return False
+
+        class Drop(ast.NodeTransformer):
+            def visit_Assign(self, st):
+                for t in st.targets:
+                    b = t
+                    while isinstance(b, (ast.Subscript, ast.Attribute)):
+                        b = b.value
+                    if isinstance(t, ast.Subscript) and isinstance(b, ast.Name) and b.id in hit:
+                        return ast.Pass()
+                return st
+
+        cand = ast.unparse(ast.fix_missing_locations(Drop().visit(tree)))
+        if cand == minsrc:
+            return False
+        sig = _signature_of(minkey)
+        return all(still_violates(cand, entry, params, args, sig) is None for _ in range(2))
+    except Exception:  # noqa: BLE001
+        return False
+
+
+def _result_operands(expr) -> list:
+    """The names / subscript paths whose value a conditional expression, boolean operation or walrus can evaluate to."""
+    if isinstance(expr, ast.IfExp):
+        return _result_operands(expr.body) + _result_operands(expr.orelse)
+    if isinstance(expr, ast.BoolOp):
+        return [o for v in expr.values for o in _result_operands(v)]
+    if isinstance(expr, ast.NamedExpr):
+        return _result_operands(expr.value)
+    return [expr] if isinstance(expr, (ast.Name, ast.Subscript)) else []
 
 
 def _item_assigned(minsrc: str, fname: str, var: str) -> bool:
@@ -938,29 +1196,43 @@ def minimise(source: str, fname: str, params, args, key: str, budget: int = 200)
         return source, key, None
     checks = 0
     changed = True
+    # larger edits first
+    order = {"drop-func": 0, "hoist-body": 2, "hoist-else": 2, "drop-else": 1, "drop-finally": 1, "drop-case": 1, "del": 1}
+
+    def edits_of(src):
+        es = _candidates(ast.parse(src), fname)
+        es.sort(key=lambda e: order[e[0]])
+        return es
+
     while changed and checks < budget:
+        # one sweep over the edits; after an edit that keeps the violation the sweep goes on from the same position in
+        # the new edit list (edits that failed earlier in the sweep are only tried again in the next sweep), and sweeps
+        # are repeated until one changes nothing: the result is minimal with respect to the edits, as before
         changed = False
         try:
-            edits = _candidates(ast.parse(source), fname)
+            edits = edits_of(source)
         except Exception:  # noqa: BLE001
             break
-        # larger edits first
-        order = {"drop-func": 0, "hoist-body": 2, "hoist-else": 2, "drop-else": 1, "drop-finally": 1, "drop-case": 1, "del": 1}
-        edits.sort(key=lambda e: order[e[0]])
-        for e in edits:
-            if checks >= budget:
-                break
+        i = 0
+        while i < len(edits) and checks < budget:
             try:
-                cand = _apply(source, fname, e)
+                cand = _apply(source, fname, edits[i])
             except Exception:  # noqa: BLE001
+                i += 1
                 continue
             if cand == source:
+                i += 1
                 continue
             checks += 1
             r = still_violates(cand, fname, params, args, sig, kwargs)
-            if r is not None:
-                source, best = cand, r
-                changed = True
+            if r is None:
+                i += 1
+                continue
+            source, best = cand, r
+            changed = True
+            try:
+                edits = edits_of(source)
+            except Exception:  # noqa: BLE001
                 break
     for _ in range(3):
         final = still_violates(source, fname, params, args, sig)
@@ -984,6 +1256,15 @@ def features(source: str, fname: str) -> str:
             feats.add("for" + ("+else" if node.orelse else ""))
         elif isinstance(node, ast.Try):
             feats.add("try" + ("+else" if node.orelse else "") + ("+finally" if node.finalbody else ""))
+            # how the handlers / the else block are left, when not by falling off their end
+            for where, blocks in (("handler", [h.body for h in node.handlers]), ("try-else", [node.orelse])):
+                for blk in blocks:
+                    for st in blk:
+                        for sub in ast.walk(st):
+                            if isinstance(sub, (ast.Raise, ast.Return, ast.Break, ast.Continue)):
+                                feats.add(f"{type(sub).__name__.lower()}-in-{where}")
+        elif isinstance(node, ast.Compare) and len(node.ops) > 1:
+            feats.add("chained-compare")
         elif isinstance(node, ast.Match):
             pats = sorted({type(c.pattern).__name__ + (f"+guard[{instrument.test_kind(c.guard)}]" if c.guard is not None else "") for c in node.cases})
             feats.add("match[" + ",".join(pats) + "]")
